@@ -126,6 +126,8 @@ def _setup(prog):
     _CTX.update(prog=prog, funcs=funcs, written=written, rebound=rebound,
                 ctor=ctor)
     _VIEWS.clear()
+    _PSTORES.clear()
+    del STALE[:]
 
 
 def is_container_attr(attr):
@@ -417,6 +419,89 @@ def _entry_call(g, call, depth):
     return None
 
 
+_PSTORES = {}       # id(cfg) -> (cfg, [(node id, target)]) stores through paths
+STALE = []          # (cfg, name, def node id, use node id, store node id)
+
+
+def _path_stores(g):
+    ent = _PSTORES.get(id(g))
+    if ent is not None and ent[0] is g:
+        return ent[1]
+    out = []
+    for n in g.nodes:
+        if n.kind != 'stmt' or n.ast is None:
+            continue
+        a = n.ast
+        ts = []
+        if isinstance(a, ast.Assign):
+            for t in a.targets:
+                ts += [t] if not isinstance(t, (ast.Tuple, ast.List)) \
+                    else list(t.elts)
+        elif isinstance(a, ast.AugAssign):
+            ts = [a.target]
+        elif isinstance(a, ast.AnnAssign) and a.value is not None:
+            ts = [a.target]
+        elif isinstance(a, ast.Delete):
+            ts = list(a.targets)
+        for t in ts:
+            if isinstance(t, (ast.Subscript, ast.Attribute)):
+                out.append((n.id, t))
+    _PSTORES[id(g)] = (g, out)
+    return out
+
+
+def _last_step(e):
+    if isinstance(e, ast.Attribute):
+        return '.' + e.attr
+    if isinstance(e, ast.Subscript):
+        return '[' + unparse(e.slice) + ']'
+    return None
+
+
+def overwritten(g, v, d, at, depth=3):
+    """the location the access path `v` was read from at node d is stored to
+    (assigned, augmented, deleted) on a path from d to node `at`: a local
+    bound to `v` at d holds the value from BEFORE that change (a change made
+    THROUGH the value - info['used'] += n for info = rec['info'] - is not
+    one: the local still denotes the same container).  Returns the node id of
+    the store or None."""
+    step = _last_step(v)
+    if step is None:
+        return None
+    cands = [(m, t) for m, t in _path_stores(g) if _last_step(t) == step]
+    if not cands:
+        return None
+    mid = None
+    want = None
+    for m, t in cands:
+        if mid is None:
+            mid = between(g, d, at)
+            want = unparse(resolve_local(g, v, d, depth))
+        if m in mid and m != d and \
+                unparse(resolve_local(g, t, m, depth)) == want:
+            return m
+    return None
+
+
+def stale_names(g, expr, at):
+    """[(name, definition node, store node)]: locals read by expr at node
+    `at` whose only definition binds them to an access path that is stored to
+    between the definition and `at`"""
+    out = []
+    for x in walk(expr):
+        if isinstance(x, ast.Name) and isinstance(x.ctx, ast.Load):
+            defs, undef = defs_reaching(g, x.id, at)
+            if undef or len(defs) != 1 or defs[0].kind != 'stmt':
+                continue
+            v = assigned_value(defs[0].ast, x.id)
+            if v is not None and I.is_path(v) and \
+                    not isinstance(v, ast.Name):
+                w = overwritten(g, v, defs[0].id, at)
+                if w is not None:
+                    out.append((x.id, defs[0], g.nodes[w]))
+    return out
+
+
 def resolve_local(g, expr, at, depth=4, allow=None):
     """copy of expr in canonical form: local names with exactly one reaching
     simple assignment are replaced by the assigned expression (access paths,
@@ -452,6 +537,13 @@ def resolve_local(g, expr, at, depth=4, allow=None):
                         snapshot_fresh(g, v.attr, d.id, at)):
                     return n
                 return copy.deepcopy(v)
+            if I.is_path(v) and not isinstance(v, ast.Name):
+                # a value read ahead of a change of the place it was read
+                # from is not that place any more (stale local)
+                w = overwritten(g, v, d.id, at, depth - 1)
+                if w is not None:
+                    STALE.append((g, n.id, d.id, at, w))
+                    return n
             if I.is_path(v) or isinstance(v, ast.BinOp) or \
                     isinstance(v, ast.Call) and (
                         dotted(v.func).endswith('_state_value') or
@@ -774,6 +866,12 @@ def _facts(g, e, pol, tid, out, depth=0):
     if isinstance(e, ast.Name) and depth < 4:
         v = hoisted_test(g, e.id, tid)
         if v is not None:
+            return _facts(g, v, pol, tid, out, depth + 1)
+    if isinstance(e, ast.Call) and depth < 4:
+        # a predicate method `return <test>` (the same function for every
+        # concrete class) is read as that test over its arguments
+        v = _getter_expr(g, e)
+        if v is not None and _testlike(v):
             return _facts(g, v, pol, tid, out, depth + 1)
     out.append((e, pol, tid))
 
@@ -1170,6 +1268,59 @@ def _pids_writers(prog, rep, rid, cname, mname, m):
                      % (cname, mname, short(stmt, 50)), m.loc(stmt))
 
 
+def record_field_stores(f, g, smap, field, good):
+    """({loop head or None: [cfg node ids]}, [odd stores]): the stores of
+    self._pilots[K][field] = v (or of a whole fresh record with that field)
+    for which good(v, store node, K) is True, grouped by the innermost loop
+    they run in (stores on alternative branches of one loop count together);
+    good() == None: not such a store; False: one the caller cannot read"""
+    sets, odd = {}, []
+    for kind, target, stmt in I.stores(f.node):
+        if kind != 'assign' or id(stmt) not in smap:
+            continue
+        sn = smap[id(stmt)]
+        tr = resolve_local(g, target, sn.id)
+        K = pilot_entry(tr, field)
+        if K is not None:
+            verdicts = [good(stmt.value, sn, K)]
+        elif isinstance(tr, ast.Subscript) and \
+                is_self_attr(tr.value, '_pilots'):
+            # a whole record {field: <value>, ..}
+            ds = fresh_dict(g, stmt.value, sn.id)
+            if not ds or any(dict_field(x, field) is None for x in ds):
+                continue
+            verdicts = [good(dict_field(x, field), sn, tr.slice) for x in ds]
+        else:
+            if isinstance(target, ast.Subscript) and \
+                    isinstance(target.slice, ast.Constant) and \
+                    target.slice.value == field:
+                odd.append(stmt)
+            continue
+        if any(v is False for v in verdicts):
+            odd.append(stmt)
+        if not all(v for v in verdicts):
+            continue
+        sets.setdefault(sn.loops[-1] if sn.loops else None, []).append(sn.id)
+    return sets, odd
+
+
+def stored_before(g, sets, node):
+    """one of the groups of stores takes effect for every element before the
+    node: a loop which every path to the node runs and whose every completed
+    iteration passes a store of the group (or straight-line stores on every
+    path)"""
+    okay = False
+    for h, ids in sets.items():
+        if h is None:
+            okay = okay or node.id not in reach_noeffect(
+                g, [g.entry.id], ids)
+            continue
+        before = node.id not in g.reachable(g.entry.id, skip_nodes={h})
+        each = h not in reach_noeffect(g, [iter_start(g, h)], ids)
+        okay = okay or (before and each)
+    return okay
+
+
 def _control_cb(prog, rep, rid, added, removed):
     f = prog.method(BASE[0], BASE[1], 'control_cb')
     rep.saw(f)
@@ -1211,45 +1362,299 @@ def _control_cb(prog, rep, rid, added, removed):
                       loc=f.loc(c), history='a %r command changes the pilot '
                       'set in the wrong way' % cmd)
             # role store in a loop which precedes the call
-            okay = False
-            sets = {}
-            for kind, target, stmt in I.stores(f.node):
-                if kind != 'assign' or id(stmt) not in smap:
-                    continue
-                sn = smap[id(stmt)]
-                tr = resolve_local(g, target, sn.id)
-                if pilot_entry(tr, 'role') is not None:
-                    if prog.fold(f.module, stmt.value, f.cls) != role:
-                        continue
-                elif isinstance(tr, ast.Subscript) and \
-                        is_self_attr(tr.value, '_pilots'):
-                    # a whole record {'role': <role>, ..}
-                    ds = fresh_dict(g, stmt.value, sn.id)
-                    if not ds or any(
-                            dict_field(x, 'role') is None or
-                            prog.fold(f.module, dict_field(x, 'role'),
-                                      f.cls) != role for x in ds):
-                        continue
-                else:
-                    continue
-                # stores on alternative branches of one loop count together
-                sets.setdefault(sn.loops[-1] if sn.loops else None,
-                                []).append(sn.id)
-            for h, ids in sets.items():
-                if h is None:
-                    okay = okay or node.id not in reach_noeffect(
-                        g, [g.entry.id], ids)
-                    continue
-                before = node.id not in g.reachable(g.entry.id,
-                                                    skip_nodes={h})
-                each = h not in reach_noeffect(g, [iter_start(g, h)], ids)
-                okay = okay or (before and each)
+            sets, _ = record_field_stores(
+                f, g, smap, 'role',
+                lambda v, sn, K: prog.fold(f.module, v, f.cls) == role or None)
+            okay = stored_before(g, sets, node)
             rep.check(okay, rid, f, 'control_cb: role = %s is stored for every '
                       'pilot of the command before `%s`' % (rname, short(c, 40)),
                       construct='%s [role %s first]' % (short(c, 60), rname),
                       message='control_cb: `%s` is reached without the role of '
                       'every pilot of the command having been set to %s'
                       % (short(c, 50), rname), loc=f.loc(c), history=hist)
+
+
+# ------------------------------------------------------------------------------
+# R12.13  add_pilots: every pilot of the command gets its document
+#
+def r12_13(prog, rep, rid='R12.13'):
+    rep.rule(rid, "control_cb: the pilot document of the command is stored in "
+             "the record (self._pilots[<its uid>]['pilot']) of every pilot of "
+             "the command, whether the record is new or was created earlier by "
+             "a state notification, before self.add_pilots(..) makes the pilot "
+             "a scheduling target", minimum=1)
+    f = prog.method(BASE[0], BASE[1], 'control_cb')
+    rep.saw(f)
+    g = cfg_of(f)
+    smap = I.stmt_node_map(g)
+    deps = Deps(f.node, implicit=False)
+    calls = [c for c in calls_in(f.node)
+             if call_name(c) == 'self.add_pilots' and id(c) in smap]
+    if not calls:
+        raise AnalysisError('UNRECOGNISED-IDIOM %s: no call of '
+                            'self.add_pilots' % f.where)
+
+    def good(v, sn, K):
+        # the value is the element of the loop over the pilots of the command
+        # and the key is taken from that element
+        if isinstance(v, ast.Constant):
+            return None
+        lv = loop_views(g).get(sn.loops[-1]) if sn.loops else None
+        if lv is None:
+            return False
+        elem = set(lv.names)
+
+        def from_elem(e):
+            r = resolve_local(g, e, sn.id)
+            return bool({x.id for x in walk(r) if isinstance(x, ast.Name)}
+                        & elem) or bool(deps.expr_depends(e) & elem)
+        if not from_elem(v):
+            return False
+        return from_elem(K)
+
+    for c in calls:
+        node = smap[id(c)]
+        sets, odd = record_field_stores(f, g, smap, 'pilot', good)
+        okay = stored_before(g, sets, node)
+        for x in calls_in(f.node):
+            if isinstance(x.func, ast.Attribute) and id(x) in smap and \
+                    x.func.attr in ('update', 'setdefault', '__setitem__'):
+                r = resolve_local(g, x.func.value, smap[id(x)].id)
+                if is_self_attr(r, '_pilots') or isinstance(r, ast.Subscript) \
+                        and is_self_attr(r.value, '_pilots'):
+                    odd.append(x)
+        if not okay and odd:
+            raise AnalysisError(
+                "UNRECOGNISED-IDIOM %s: `%s` stores a 'pilot' entry the "
+                "recogniser cannot tie to the pilots of the command"
+                % (f.where, short(odd[0], 60)))
+        rep.check(okay, rid, f, "control_cb: the pilot document is stored for "
+                  "every pilot of the command before `%s`" % short(c, 40),
+                  construct="%s [pilot document first]" % short(c, 60),
+                  message="control_cb (add_pilots): `%s` is reached although "
+                  "some pilot of the command passed the loop without "
+                  "self._pilots[<uid>]['pilot'] = <its document> (%s): a pilot "
+                  "whose record exists already - created with 'pilot': None by "
+                  "_update_pilot_states for an earlier state notification - "
+                  "gets role ADDED but keeps pilot None; tasks naming it stay "
+                  "parked in self._early for ever and unbound tasks are handed "
+                  "to _assign_pilot(task, None), which raises"
+                  % (short(c, 50), 'the document is stored on some branches '
+                     'only' if sets else 'no such store'),
+                  loc=f.loc(c),
+                  history='state notification p1 -> PMGR_LAUNCHING (creates '
+                  "the record, 'pilot': None), then add_pilots(p1), then one "
+                  'task naming p1 and one unbound task: the first waits for '
+                  'ever, the second is FAILED')
+
+
+# ------------------------------------------------------------------------------
+# R12.15  the pilot-set commands: what TaskManager publishes is what control_cb
+#         acts on (command constant and argument keys agree)
+#
+TMGR = ('task_manager.py', 'TaskManager')
+
+
+def _cmd_values(prog, f, g, node, var_texts):
+    """the set of command strings for which the node is reached (None: no
+    test of the command on the way), from the guards that compare the command
+    variable with constants: membership filters and equality tests together"""
+    allowed, excluded = None, set()
+    for a, pol, tid in guard_facts(g, node.id):
+        cc = const_compare(prog, f.module, a, f.cls)
+        if not cc or cc[0] not in var_texts:
+            continue
+        vals = {v for v in cc[2] if isinstance(v, str)}
+        if (cc[1] == 'in') == pol:
+            allowed = vals if allowed is None else allowed & vals
+        else:
+            excluded |= vals
+    if allowed is None:
+        return None
+    return allowed - excluded
+
+
+def _msg_vars(f, key):
+    """texts that denote msg[key] in a callback: the expression itself and
+    the locals bound to it"""
+    msg = f.params[-1]
+    texts = {"%s['%s']" % (msg, key), "%s.get('%s')" % (msg, key)}
+    out = set(texts)
+    for n in walk(f.node):
+        if isinstance(n, ast.Assign) and unparse(n.value) in texts:
+            for t in n.targets:
+                if isinstance(t, ast.Name):
+                    out.add(t.id)
+    return out
+
+
+def _cmd_messages(prog, K):
+    """[(method, dict display, command or UNKNOWN, set of arg keys or None)]:
+    the messages {'cmd': .., 'arg': {..}} built by the methods of a class"""
+    out = []
+    for mname, m in sorted(K.methods.items()):
+        for n in walk(m.node, nested=True):
+            if not isinstance(n, ast.Dict):
+                continue
+            keys = {k.value: v for k, v in zip(n.keys, n.values)
+                    if isinstance(k, ast.Constant)}
+            if 'cmd' not in keys:
+                continue
+            cmd = prog.fold(m.module, keys['cmd'], m.cls)
+            arg = keys.get('arg')
+            akeys = None
+            if isinstance(arg, ast.Dict) and all(
+                    isinstance(k, ast.Constant) for k in arg.keys):
+                akeys = {k.value for k in arg.keys}
+            out.append((m, n, cmd if isinstance(cmd, str) else UNKNOWN, akeys))
+    return out
+
+
+def _handled_commands(prog):
+    """the command strings some function of the package compares the 'cmd'
+    entry of a message with (equality, membership; constants folded)"""
+    out = set()
+    for mod in prog.modules.values():
+        funcs = list(mod.funcs.values())
+        for c in mod.classes.values():
+            funcs += list(c.methods.values())
+        for f in funcs:
+            names = set()
+            for n in walk(f.node):
+                if isinstance(n, ast.Assign):
+                    v = n.value
+                    if isinstance(v, ast.Call) and \
+                            isinstance(v.func, ast.Attribute) and \
+                            v.func.attr == 'get' and v.args:
+                        k = v.args[0]
+                    elif isinstance(v, ast.Subscript):
+                        k = v.slice
+                    else:
+                        continue
+                    if isinstance(k, ast.Constant) and k.value == 'cmd':
+                        names |= {t.id for t in n.targets
+                                  if isinstance(t, ast.Name)}
+            if not names:
+                continue
+            for n in walk(f.node):
+                if isinstance(n, ast.Compare):
+                    cc = const_compare(prog, f.module, n, f.cls)
+                    if cc and cc[0] in names:
+                        out |= {v for v in cc[2] if isinstance(v, str)}
+    return out
+
+
+def r12_15(prog, rep, rid='R12.15'):
+    rep.rule(rid, 'the command TaskManager.add_pilots / remove_pilots publishes '
+             'is one for which control_cb of the scheduler calls '
+             'self.add_pilots / self.remove_pilots, and carries the argument '
+             'keys read on the way to that call; every command TaskManager '
+             'publishes is handled by some callback', minimum=3)
+    f = prog.method(BASE[0], BASE[1], 'control_cb')
+    rep.saw(f)
+    g = cfg_of(f)
+    smap = I.stmt_node_map(g)
+    cmdv = _msg_vars(f, 'cmd')
+    argv = _msg_vars(f, 'arg')
+    tm = prog.cls(*TMGR)
+    pubs = _cmd_messages(prog, tm)
+    for api in ('add_pilots', 'remove_pilots'):
+        pf = prog.find_method(tm, api)
+        if pf is None:
+            raise AnalysisError('anchor TaskManager.%s not found' % api)
+        rep.saw(pf)
+        mine = [(cmd, d, akeys) for (xf, d, cmd, akeys) in pubs if xf is pf]
+        if not mine or any(cmd is UNKNOWN for cmd, d, akeys in mine):
+            raise AnalysisError(
+                "UNRECOGNISED-IDIOM %s: no message {'cmd': <constant>, ..} is "
+                "built here (or its command is not a constant)" % pf.where)
+        calls = [c for c in calls_in(f.node)
+                 if call_name(c) == 'self.' + api and id(c) in smap]
+        if not calls:
+            continue                    # reported by R12.1
+        acts, reads = set(), set()
+        for c in calls:
+            node = smap[id(c)]
+            vals = _cmd_values(prog, f, g, node, cmdv)
+            if vals is None:
+                continue                # no command test: reported by R12.1
+            acts |= vals
+            # keys of the argument read on a path to the call
+            up = {n.id for n in g.nodes
+                  if node.id in g.reachable(n.id)} & g.reachable(g.entry.id)
+            for x in walk(f.node):
+                if isinstance(x, ast.Subscript) and \
+                        isinstance(x.ctx, ast.Load) and \
+                        isinstance(x.slice, ast.Constant) and \
+                        unparse(x.value) in argv and id(x) in smap and \
+                        smap[id(x)].id in up:
+                    # not in the branch of another command
+                    there = _cmd_values(prog, f, g, smap[id(x)], cmdv)
+                    if there is None or there & vals:
+                        reads.add(x.slice.value)
+            rep.check(bool(vals), rid, f, 'control_cb: `%s` is reachable for '
+                      'the command(s) %s' % (short(c, 40), sorted(vals)),
+                      construct='%s [reachable for some command]'
+                      % short(c, 60),
+                      message='control_cb: the tests of the command on the way '
+                      'to `%s` exclude each other (the accepted commands of '
+                      'the filter and the branch test have no string in '
+                      'common): no command makes the scheduler call it'
+                      % short(c, 50), loc=f.loc(c),
+                      history='%s(p1) of the TaskManager has no effect on the '
+                      'pilot set of the scheduler' % api)
+        for cmd, d, akeys in mine:
+            if not acts:
+                break
+            okay = cmd in acts
+            rep.check(okay, rid, pf, "TaskManager.%s publishes %r, for which "
+                      "control_cb calls self.%s" % (api, cmd, api),
+                      construct='TaskManager.%s -> control_cb [command]' % api,
+                      message="TaskManager.%s publishes the command %r, but "
+                      "TMGRSchedulingComponent.control_cb calls self.%s only "
+                      "for %s: the message is ignored, the scheduler never "
+                      "learns that the pilot was %s" % (
+                          api, cmd, api, sorted(acts),
+                          'added - tasks wait for ever' if api == 'add_pilots'
+                          else 'removed - it keeps role ADDED and stays in '
+                          'self._pids, tasks submitted later are still bound '
+                          'to the removed pilot'),
+                      loc=pf.loc(d),
+                      history='add_pilots(p0, p1), remove_pilots(p1), submit '
+                      'four tasks under RoundRobin: two of them are bound to '
+                      'p1' if api == 'remove_pilots' else 'add_pilots(p1), '
+                      'submit a task: it stays in the wait pool')
+            if okay and akeys is not None:
+                miss = reads - akeys
+                rep.check(not miss, rid, pf, "TaskManager.%s writes the "
+                          "argument keys %s control_cb reads for %r"
+                          % (api, sorted(reads), cmd),
+                          construct='TaskManager.%s -> control_cb [keys]' % api,
+                          message="control_cb reads arg[%s] on the way to "
+                          "self.%s, but TaskManager.%s publishes only the keys "
+                          "%s: the handler raises KeyError and the command is "
+                          "lost" % (', '.join(repr(k) for k in sorted(miss)),
+                                    api, api, sorted(akeys)),
+                          loc=pf.loc(d),
+                          history='every %s command makes control_cb raise; '
+                          'the pilot set of the scheduler never changes' % api)
+    # every command of the TaskManager has a handler somewhere
+    handled = _handled_commands(prog)
+    if not handled:
+        raise AnalysisError('UNRECOGNISED-IDIOM: no callback of the package '
+                            'tests a command constant')
+    for xf, d, cmd, akeys in pubs:
+        if cmd is UNKNOWN:
+            continue
+        rep.saw(xf)
+        rep.check(cmd in handled, rid, xf, '%s publishes %r, which a '
+                  'callback handles' % (xf.qual, cmd),
+                  construct='%s publishes %r' % (xf.qual, cmd),
+                  message='%s publishes the command %r, which no callback '
+                  'of the package tests for (handled commands: %s): the '
+                  'message has no effect' % (xf.qual, cmd, sorted(handled)),
+                  loc=xf.loc(d), history='the request published by %s is '
+                  'dropped by every component' % xf.qual)
 
 
 # ------------------------------------------------------------------------------
@@ -2471,6 +2876,7 @@ def r12_5(prog, rep, rid='R12.5'):
                 if kind == 'hwm' and v is ast.Lt:
                     strict = True
             removed_ok = False
+            stale, unread = [], []
             pv = inner.target.id if isinstance(inner.target, ast.Name) \
                 else None
             for x in g.nodes:
@@ -2484,6 +2890,11 @@ def r12_5(prog, rep, rid='R12.5'):
                             isinstance(cc.args[0], ast.Name) and \
                             cc.args[0].id == pv:
                         gs = guard_facts(g, x.id, start=nsucc(g, cr.id)[0])
+                        for a, pol, t in gs:
+                            stale += stale_names(g, a, t)
+                            if classify_bf_guard(prog, f, g, a, pol, t,
+                                                 added) == ('hwm', 'unknown'):
+                                unread.append(a)
                         kinds = [classify_bf_guard(prog, f, g, a, pol, t,
                                                    added)
                                  for a, pol, t in gs]
@@ -2491,6 +2902,12 @@ def r12_5(prog, rep, rid='R12.5'):
                                 all(k == 'hwm' and v is ast.GtE
                                     for k, v in kinds) and kinds:
                             removed_ok = True
+            if not (strict or removed_ok) and unread and not stale:
+                raise AnalysisError(
+                    'UNRECOGNISED-IDIOM %s: the removal of a full pilot after '
+                    '`%s` is guarded by `%s`, a usage test the recogniser does '
+                    'not know' % (f.where, short(cr.ast, 40),
+                                  short(unread[0], 60)))
             rep.check(strict or removed_ok, rid, f,
                       'Backfilling: after `%s` a pilot with used >= hwm leaves '
                       'the candidates (or the assignment is guarded by used < '
@@ -2501,7 +2918,12 @@ def r12_5(prog, rep, rid='R12.5'):
                       '`%s` the pilot is neither removed from %r when '
                       'used >= hwm nor is the assignment guarded by the strict '
                       'test used < hwm: a pilot exactly at its high-water mark '
-                      'receives a further task' % (short(cr.ast, 40), cname),
+                      'receives a further task' % (short(cr.ast, 40), cname)
+                      + ''.join(' [the test of the removal reads the local %r, '
+                                'bound by `%s` BEFORE `%s` changes that value: '
+                                'it compares the usage before the assignment]'
+                                % (nm, short(dn.ast, 40), short(wn.ast, 40))
+                                for nm, dn, wn in stale[:1]),
                       loc=f.loc(cr.ast),
                       history='pilot with hwm 20 and used 10; two waiting '
                       'tasks of 10 cores and one more: the first brings used '
@@ -2870,6 +3292,142 @@ def r12_7(prog, rep, rid='R12.7'):
                       'more than once'), loc=f.loc(u),
                   history='two pilots and a batch of four tasks: all four go '
                   'to the same pilot')
+
+
+# ------------------------------------------------------------------------------
+# R12.14  tasks wait while there is no pilot: an element is drawn from
+#         self._pids by index only where THAT list is known to be non-empty
+#
+def _nonempty_fact(g, atom, pol, tid, cn):
+    """True: the outcome `pol` of the test establishes that self._pids is not
+    empty; False: it is a test of self._pids that does not; None: the test
+    does not look at self._pids at all"""
+    a = cn(atom, tid)
+    while isinstance(a, ast.Call) and dotted(a.func) == 'bool' and \
+            len(a.args) == 1 and not a.keywords:
+        a = a.args[0]
+    if is_self_attr(a, '_pids') or _is_len_pids(a):
+        return pol
+    if isinstance(a, ast.Compare) and len(a.ops) == 1:
+        l, r, op = a.left, a.comparators[0], a.ops[0]
+        for x, y, o in ((l, r, type(op)), (r, l, _flip(op))):
+            if o is None:
+                continue
+            if _is_len_pids(x) and isinstance(y, ast.Constant) and \
+                    isinstance(y.value, int) and \
+                    not isinstance(y.value, bool) and o in _CMP:
+                # the relation, evaluated for an empty list
+                return _CMP[o](0, y.value) != pol
+            if is_self_attr(x, '_pids') and o in (ast.Eq, ast.NotEq) and (
+                    is_empty_ctor(y) or isinstance(y, (ast.List, ast.Tuple))
+                    and not y.elts):
+                return (o is ast.NotEq) == pol
+            if _is_idx(x) and _is_len_pids(y) and o in (ast.Lt, ast.GtE):
+                # 0 <= self._idx < len(self._pids)
+                return (o is ast.Lt) == pol
+    if any(is_self_attr(x, '_pids') for x in walk(a)):
+        return False if isinstance(a, ast.Compare) and any(
+            isinstance(o, (ast.In, ast.NotIn)) for o in a.ops) else 'unknown'
+    return None
+
+
+def r12_14(prog, rep, rid='R12.14'):
+    rep.rule(rid, 'a pilot id is drawn from self._pids by index only where '
+             'self._pids itself (not another container) was tested non-empty: '
+             'with no added pilot the tasks wait instead of failing',
+             minimum=1)
+    seen = set()
+    n_uses = 0
+    for rel, cname in (RR, BF):
+        K = prog.cls(rel, cname)
+        for mname, f in sorted(K.methods.items()):
+            if id(f.node) in seen or mname in STARTUP:
+                continue
+            seen.add(id(f.node))
+            if not any(is_self_attr(x, '_pids') for x in walk(f.node)):
+                continue
+            g = cfg_of(f)
+            smap = I.stmt_node_map(g)
+
+            def hoisted(v, d, at, g=g):
+                return isinstance(v, ast.Call) and dotted(v.func) == 'len' \
+                    and len(v.args) == 1 and _calm(g, d, at)
+
+            def cn(e, at, g=g, hoisted=hoisted):
+                return resolve_local(g, e, at, allow=hoisted)
+            for u in walk(f.node):
+                if not (isinstance(u, ast.Subscript) and
+                        isinstance(u.ctx, ast.Load) and id(u) in smap and
+                        not isinstance(u.slice, ast.Slice)):
+                    continue
+                un = smap[id(u)]
+                if not is_self_attr(cn(u.value, un.id), '_pids'):
+                    continue
+                n_uses += 1
+                rep.saw(f)
+                how, odd, weak = None, None, None
+                for h in un.loops:
+                    lv = loop_views(g).get(h)
+                    if lv is not None and lv.form in ('for', 'range') and \
+                            derive(g, strip_copy(lv.iter), h) == 'pids':
+                        how = 'it lies in a loop over self._pids'
+                for a, pol, tid in guard_facts(g, un.id):
+                    v = _nonempty_fact(g, a, pol, tid, cn)
+                    if v is True:
+                        if not _calm(g, tid, un.id):
+                            raise AnalysisError(
+                                'UNRECOGNISED-IDIOM %s: self._pids may change '
+                                'between the test `%s` and `%s`'
+                                % (f.where, short(a, 40), short(u, 40)))
+                        how = how or 'guarded by `%s` (%s)' % (
+                            short(a, 40), 'holds' if pol else 'fails')
+                    elif v == 'unknown':
+                        odd = a
+                    elif v is False:
+                        weak = (a, pol)
+                if not how and odd is not None:
+                    raise AnalysisError(
+                        'UNRECOGNISED-IDIOM %s: `%s` is guarded by `%s`, a test '
+                        'of self._pids the recogniser does not know'
+                        % (f.where, short(u, 40), short(odd, 60)))
+                # what is tested instead (for the message)
+                other = None
+                for a, pol, tid in guard_facts(g, un.id):
+                    ra = cn(a, tid)
+                    for x in walk(ra):
+                        if is_self_attr(x) and x.attr != '_pids' and \
+                                is_container_attr(x.attr) and (
+                                    ra is x or isinstance(ra, ast.Call) and
+                                    dotted(ra.func) == 'len'):
+                            other = (x.attr, a, pol)
+                rep.check(bool(how), rid, f, '%s.%s: `%s` is reached only with '
+                          'a non-empty self._pids: %s'
+                          % (cname, mname, short(u, 40), how),
+                          construct='%s [self._pids non-empty]' % short(u, 40),
+                          message='%s.%s: `%s` draws a pilot id by index, but '
+                          'no test on the way establishes that self._pids is '
+                          'non-empty%s%s: with no added pilot the index raises '
+                          '(IndexError / ZeroDivisionError), the per-task '
+                          'handler reports the tasks FAILED instead of leaving '
+                          'them in the wait pool until a pilot is added'
+                          % (cname, mname, short(u, 40),
+                             ' (the emptiness test `%s` looks at self.%s, '
+                             'which also holds removed pilots and pilots only '
+                             'known from state notifications)'
+                             % (short(other[1], 40), other[0]) if other else '',
+                             ' (`%s` %s here: wrong polarity)'
+                             % (short(weak[0], 40),
+                                'holds' if weak[1] else 'fails')
+                             if weak and not other else ''),
+                          loc=f.loc(u),
+                          history='add_pilots(p1), remove_pilots(p1) (or only a '
+                          'state notification for some pilot), then unbound '
+                          'tasks are submitted: self._pilots is non-empty, '
+                          'self._pids is empty - all tasks of the bulk end '
+                          'FAILED instead of waiting for the next add_pilots')
+    if not n_uses:
+        raise AnalysisError('UNRECOGNISED-IDIOM %s: no element of self._pids '
+                            'is selected by index' % RR[0])
 
 
 # ------------------------------------------------------------------------------
@@ -3612,7 +4170,8 @@ def run(prog, rep, tier):
     # a rule that does not know the shape of its anchors stops the analysis
     # (exit 2) unless another rule has a finding (main._try)
     for rule in (r12_1, r12_2, r12_3, sites, r12_5, r12_6, r12_7, r12_8,
-                 r12_9, r12_10, r12_11, r12_12):
+                 r12_9, r12_10, r12_11, r12_12, r12_13, r12_14,
+                 r12_15):
         rep.attempt(rule, prog, rep)
     if tier == 'thorough':
         rep.rule('R12.4s', 'sweep of R12.4 over every class of the package that '
@@ -4326,4 +4885,159 @@ MUTATIONS += [
                        "                        rps._task_state_value(rps.AGENT_EXECUTING)):\n"
                        "                    self._log.debug('upd task %s too early', uid)\n"
                        "                    continue\n")]),
+]
+
+
+# ------------------------------------------------------------------------------
+# round 5 (corpus h2 .. h5, r10): R12.13 pilot document of every added pilot,
+# R12.14 index into self._pids only when THAT list is non-empty, R12.5 fresh
+# usage figure in the removal test, R12.15 command constants and argument keys
+# agree between TaskManager and control_cb
+#
+_T = 'task_manager.py'
+_B_NEW = ("                        self._pilots[pid] = {'role'  : None,\n"
+          "                                             'state' : None,\n"
+          "                                             'pilot' : None,\n"
+          "                                             'info'  : dict()\n"
+          "                                            }\n")
+_B_DOC = "                    self._pilots[pid]['pilot'] = pilot\n"
+_B_ROLE = "                    self._pilots[pid]['role']  = ADDED\n"
+_F_INFO = "                    info = self._pilots[pid]['info']\n\n"
+_F_T1 = "                    if info['used'] <= info['hwm']:\n"
+_F_T2 = "                        if info['used'] >= info['hwm']:\n"
+_F_CR = "                        info['used']   += cores\n"
+_F_UPD = ("    # --------------------------------------------------------------------------\n"
+          "    #\n    def update_pilots(self, pids):\n")
+_F_WIN = ("    # --------------------------------------------------------------------------\n"
+          "    #\n    @staticmethod\n    def _in_window(state):\n"
+          "        '''state within the backfilling window'''\n\n"
+          "        return _BF_START_VAL <= rps._pilot_state_value(state) <= _BF_STOP_VAL\n\n\n")
+_F_FILTER = ("                if role != ADDED:\n                    continue\n\n"
+             + _START + "\n                    continue\n\n"
+             "                if info['used'] >= info['hwm']:\n"
+             "                    # pilot is full\n                    continue\n\n"
+             "                pids.append(pid)\n")
+_T_REM = "        self.publish(rpc.CONTROL_PUBSUB, {'cmd' : 'remove_pilots',\n"
+_T_ADD = "        self.publish(rpc.CONTROL_PUBSUB, {'cmd' : 'add_pilots',\n"
+_B_FILTER = "        if cmd not in ['add_pilots', 'remove_pilots', 'cancel_tasks']:\n"
+
+MUTATIONS += [
+    dict(name='corpus h2: pilot document only in the literal of a new record', rules=('R12.13',), edits=[
+        (_B, _B_NEW, _B_NEW.replace("'pilot' : None", "'pilot' : pilot")),
+        (_B, _B_DOC, "")]),
+    dict(name='R12.13 pilot document stored in the branch that creates the record only', rules=('R12.13',), edits=[
+        (_B, _B_DOC, ""),
+        (_B, _B_NEW, _B_NEW + "                        self._pilots[pid]['pilot'] = pilot\n")]),
+    dict(name='R12.13 pilot document never stored', rules=('R12.13',), edits=[
+        (_B, _B_DOC, "")]),
+    dict(name='R12.13 pilot document stored for known pilots only', rules=('R12.13',), edits=[
+        (_B, _B_DOC, ""),
+        (_B, "                        if self._pilots[pid]['role'] == ADDED:\n"
+             "                            raise ValueError('pilot already added (%s)' % pid)\n",
+             "                        if self._pilots[pid]['role'] == ADDED:\n"
+             "                            raise ValueError('pilot already added (%s)' % pid)\n"
+             "                        self._pilots[pid]['pilot'] = pilot\n")]),
+    dict(name='corpus h3: RoundRobin tests self._pilots for emptiness', rules=('R12.14',), edits=[
+        (_R, _R_GUARD, _R_GUARD.replace("self._pids", "self._pilots"))]),
+    dict(name='R12.14 RoundRobin: length of the table of all known pilots tested', rules=('R12.14',), edits=[
+        (_R, _R_GUARD, _R_GUARD.replace("not self._pids", "len(self._pilots) == 0"))]),
+    dict(name='R12.14 RoundRobin: tasks wait only if others wait already', rules=('R12.14',), edits=[
+        (_R, _R_GUARD, _R_GUARD.replace("not self._pids", "not self._pids and self._wait_pool"))]),
+    dict(name='R12.14 RoundRobin: emptiness test off by one (len > 1 needed to schedule)', rules=('R12.14',), edits=[
+        (_R, _R_GUARD, _R_GUARD.replace("not self._pids", "len(self._pids) < 0"))]),
+    dict(name='corpus h4: usage cached before the credit, reused for the full test', rules=('R12.5',), edits=[
+        (_F, _F_INFO, _F_INFO[:-1] + "                    used = info['used']\n\n"),
+        (_F, _F_T1, "                    if used <= info['hwm']:\n"),
+        (_F, _F_T2, "                        if used >= info['hwm']:\n")]),
+    dict(name='R12.5 usage read through the table before the credit, reused for the full test', rules=('R12.5',), edits=[
+        (_F, _F_CR, "                        before = self._pilots[pid]['info']['used']\n" + _F_CR),
+        (_F, _F_T2, "                        if before >= info['hwm']:\n")]),
+    dict(name='corpus h5: TaskManager.remove_pilots misspells the command', rules=('R12.15',), edits=[
+        (_T, _T_REM, _T_REM.replace("'remove_pilots'", "'remove_pilot'"))]),
+    dict(name='R12.15 TaskManager.add_pilots misspells the command', rules=('R12.15',), edits=[
+        (_T, _T_ADD, _T_ADD.replace("'add_pilots'", "'add_pilot'"))]),
+    dict(name='R12.15 control_cb: command filter misspells remove_pilots', rules=('R12.15',), edits=[
+        (_B, _B_FILTER, _B_FILTER.replace("'remove_pilots'", "'remove_pilot'"))]),
+    dict(name='R12.15 control_cb: branch test in upper case', rules=('R12.15',), edits=[
+        (_B, "        elif cmd == 'remove_pilots':\n", "        elif cmd == 'REMOVE_PILOTS':\n")]),
+    dict(name='R12.15 TaskManager.remove_pilots sends the ids under another key', rules=('R12.15',), edits=[
+        (_T, "                                          'arg' : {'pids'  : pilot_ids,\n",
+             "                                          'arg' : {'pilots': pilot_ids,\n")]),
+]
+
+SILENT += [
+    dict(name='control_cb: pilot document stored on both branches, no common store', edits=[
+        (_B, _B_DOC, ""),
+        (_B, "                        if self._pilots[pid]['role'] == ADDED:\n"
+             "                            raise ValueError('pilot already added (%s)' % pid)\n",
+             "                        if self._pilots[pid]['role'] == ADDED:\n"
+             "                            raise ValueError('pilot already added (%s)' % pid)\n"
+             "                        self._pilots[pid]['pilot'] = pilot\n"),
+        (_B, _B_NEW, _B_NEW.replace("'pilot' : None", "'pilot' : pilot"))]),
+    dict(name='control_cb: record held in a local, document stored before the role', edits=[
+        (_B, _B_ROLE + _B_DOC,
+             "                    known = self._pilots[pid]\n"
+             "                    known['pilot'] = pilot\n"
+             "                    known['role']  = ADDED\n")]),
+    dict(name='control_cb: document copied into a renamed local first', edits=[
+        (_B, _B_DOC, "                    doc = pilot\n"
+                     "                    self._pilots[doc['uid']]['pilot'] = doc\n")]),
+    dict(name='control_cb: new record built with the document, known record completed in an else-less guard', edits=[
+        (_B, _B_NEW, _B_NEW.replace("'pilot' : None", "'pilot' : pilot")),
+        (_B, _B_DOC, "                    if self._pilots[pid]['pilot'] is None:\n"
+                     "                        self._pilots[pid]['pilot'] = pilot\n"
+                     "                    else:\n"
+                     "                        self._pilots[pid]['pilot'] = pilot\n")]),
+    dict(name='RoundRobin: emptiness of self._pids tested by its length', edits=[
+        (_R, _R_GUARD, _R_GUARD.replace("not self._pids", "len(self._pids) == 0"))]),
+    dict(name='RoundRobin: number of pids in a local, tested < 1', edits=[
+        (_R, _R_GUARD, "            n_pids = len(self._pids)\n" + _R_GUARD.replace("not self._pids", "n_pids < 1"))]),
+    dict(name='RoundRobin: emptiness computed ahead into a flag', edits=[
+        (_R, _R_GUARD, "            no_pilots = not self._pids\n" + _R_GUARD.replace("not self._pids", "no_pilots"))]),
+    dict(name='RoundRobin: emptiness test through bool() and a local alias', edits=[
+        (_R, _R_GUARD, "            added = self._pids\n" + _R_GUARD.replace("not self._pids", "not bool(added)"))]),
+    dict(name='RoundRobin: emptiness test compares with the empty list', edits=[
+        (_R, _R_GUARD, _R_GUARD.replace("not self._pids", "self._pids == []"))]),
+    dict(name='Backfilling: usage cached for the first test only, full test reads the record', edits=[
+        (_F, _F_INFO, _F_INFO[:-1] + "                    used = info['used']\n\n"),
+        (_F, _F_T1, "                    if used <= info['hwm']:\n")]),
+    dict(name='Backfilling: usage re-read into a local after the credit', edits=[
+        (_F, _F_T2, "                        used = info['used']\n"
+                    "                        if used >= info['hwm']:\n")]),
+    dict(name='Backfilling: usage cached before the credit, local re-bound after it', edits=[
+        (_F, _F_INFO, _F_INFO[:-1] + "                    used = info['used']\n\n"),
+        (_F, _F_T1, "                    if used <= info['hwm']:\n"),
+        (_F, _F_T2, "                        used = info['used']\n"
+                    "                        if used >= info['hwm']:\n")]),
+    dict(name='Backfilling: high-water mark cached in a local for both tests', edits=[
+        (_F, _F_INFO, _F_INFO[:-1] + "                    hwm  = info['hwm']\n\n"),
+        (_F, _F_T1, "                    if info['used'] <= hwm:\n"),
+        (_F, _F_T2, "                        if info['used'] >= hwm:\n")]),
+    dict(name='corpus r10 (part): eligibility window in a static predicate, one positive filter', edits=[
+        (_F, _F_UPD, _F_WIN + _F_UPD),
+        (_F, _F_FILTER, "                if  role == ADDED and self._in_window(state) and \\\n"
+                        "                    info['used'] < info['hwm']:\n"
+                        "                    pids.append(pid)\n")]),
+    dict(name='corpus r10 (part): window predicate in guard-clause form, flag replaced by for/else', edits=[
+        (_F, _F_UPD, _F_WIN + _F_UPD),
+        (_F, _START + "\n                    continue\n\n",
+             "                if not self._in_window(state):\n                    continue\n\n"),
+        (_F, "                success = False\n", ""),
+        (_F, "                        success = True\n", ""),
+        (_F, "                if not success:\n", "                else:\n")]),
+    dict(name='TaskManager.remove_pilots: message built in a local first', edits=[
+        (_T, _T_REM + "                                          'arg' : {'pids'  : pilot_ids,\n"
+                      "                                                   'tmgr'  : self.uid}})\n",
+             "        msg = {'cmd' : 'remove_pilots',\n"
+             "               'arg' : {'tmgr'  : self.uid,\n"
+             "                        'pids'  : pilot_ids}}\n"
+             "        self.publish(rpc.CONTROL_PUBSUB, msg)\n")]),
+    dict(name='control_cb: command filter as a tuple, branch tests as separate ifs', edits=[
+        (_B, _B_FILTER, "        if cmd not in ('cancel_tasks', 'remove_pilots', 'add_pilots'):\n"),
+        (_B, "        elif cmd == 'remove_pilots':\n", "        if cmd == 'remove_pilots':\n")]),
+    dict(name='control_cb: commands as module constants', edits=[
+        (_B, _B_FILTER, "        if cmd not in [_CMD_ADD, _CMD_REMOVE, 'cancel_tasks']:\n"),
+        (_B, "        if cmd == 'add_pilots':\n", "        if cmd == _CMD_ADD:\n"),
+        (_B, "        elif cmd == 'remove_pilots':\n", "        elif cmd == _CMD_REMOVE:\n"),
+        (_B, "ADDED   = 'added'\n", "ADDED   = 'added'\n_CMD_ADD = 'add_pilots'\n_CMD_REMOVE = 'remove_pilots'\n")]),
 ]
